@@ -193,10 +193,10 @@ def _sum_check(F, b):
 READER_FILES = ("src/huffman_encoding.rs", "src/deflate_reader.rs", "src/bit_reader.rs", "src/huffman_helper.rs")
 
 
-def _site_status(F, U, b):
+def _site_status(F, U, b, extra_facts=None):
     """[(site, key-without-ordinal, unproved-list)] for one body: LIN first, upper-bound inference for fixed-size arrays second."""
     from ..facts import op_const, const_int
-    L, sites, facts, inn, out = lin.sites_and_facts(F, b)
+    L, sites, facts, inn, out = lin.sites_and_facts(F, b, extra_facts=extra_facts)
     res = []
     for s in sites:
         here = [f for f in facts if lin.holds_at(b, f[0], s.bb)]
@@ -343,6 +343,18 @@ def x4(ctx, rep, rule="X4"):
         except Exception as e:
             rep.add(rule, "UNRECOGNISED-IDIOM:" + short, False, "%s:%s" % (b.file, b.line), "LIN evaluation failed: %s: %s" % (type(e).__name__, e))
             continue
+        # a reviewed subtraction `a - b` whose operands are entry values (integer arguments, lengths before any mutation) is a
+        # precondition of the function — the row says a caller-side rule establishes a >= b — and may be used by the other
+        # sites of the same function (e.g. a fast path for dist == 1 reading plain_text[len - 1])
+        prec = []
+        for s0, un0 in st:
+            if un0 and s0.kind == "sub" and (short, s0.kind, s0.what) in RB.ROWS:
+                for _, ob in s0.obligations:
+                    if ob is not TOP and all(k == "" or k.startswith("arg:") or re.match(r"^len\(.*\)#0$", k) for k in ob):
+                        prec.append((("always",), ob, "precondition (reviewed row): %s" % s0.what))
+        if prec and any(un0 and (short, s0.kind, s0.what) not in RB.ROWS for s0, un0 in st):
+            st2 = _site_status(F, U, b, extra_facts=prec)
+            st = [(s0, un0 if (short, s0.kind, s0.what) in RB.ROWS else un2) for (s0, un0), (_, un2) in zip(st, st2)]
         counts = {}
         for s, unproved in st:
             n += 1
